@@ -22,6 +22,11 @@ theorem fact_reload_atomic :
     Generated.Ipam.holdsCacheLock.lookup "handleFIPAssign" = some "Lock" ∧
     Generated.Ipam.handlersMakeNoStoreCall = true := by decide
 
+/-- tie to the code: `createFloatingIP` returns the error of the store's Create call unconditionally — an existing
+    object (a reservation with or without `spec.key`, a leftover) is never fetched, compared or taken over.  This is the
+    shape `sCreate` models ("create of an existing name fails, no effect"), on which `reserved_never_allocated` rests. -/
+theorem fact_create_conflict_is_final : Generated.Ipam.createReturnsCreateError = true := by decide
+
 /-- "An IP that an administrator reserved with a labelled FloatingIP object … is never handed to a pod": in ANY state,
     an address with a stored object — labelled or not, its watch event delivered or not — is returned by no
     allocation move, whatever the choice and the plan.  (Before delivery the store create conflicts; after delivery
@@ -128,6 +133,16 @@ example : ReachAny s0 ∧ 4 ∈ s0.free ∧ (s0.store.get 4).isSome = true ∧
   unfold s0
   simp only [run, List.foldl]
   refine ReachAny.step _ (ReachAny.step _ (ReachAny.step _ (ReachAny.step _ ReachAny.init ?_) ?_) ?_) ?_ <;> decide
+
+def sNoKey : State := (step (run init [.configure [pool1] [] {}]) (.adminReserve 4 "" 0)).1
+
+/-- a reservation WITHOUT `spec.key` (only the label is required), and one whose key equals the requesting pod's key, are
+    covered like any other stored object: the allocation aimed at the address fails with AlreadyExists -/
+example : 4 ∈ sNoKey.free ∧ (sNoKey.store.get 4).isSome = true ∧
+    ((Op.allocSpecific "" 4 attr1 {}).run sNoKey).2.err = some .exists_ ∧
+    ((Op.allocRanges "pod-c" "10.0.1.0/24" [[{ first := 4, last := 4 }]] attr1 none {}).run sNoKey).2.err = some .exists_ ∧
+    ((Op.allocSpecific "pod-c" 4 attr1 {}).run (step (run init [.configure [pool1] [] {}]) (.adminReserve 4 "pod-c" 0)).1).2.err
+      = some .exists_ := by decide
 
 /-- `reload_lossless` is not vacuous: shrinking the configuration to 3..4 keeps pod-a's 3 and the reservation of 4,
     drops pod-b's 9 from memory and store -/
